@@ -867,7 +867,26 @@ func (e *lsEnv) step(c lsCmd, which string, history []string) lsStepResult {
 				if d := lsSnapDiff(shardsOnly(snap0), shardsOnly(snap2)); len(d) > 0 {
 					vfOracleFail("sync:failed-discovery-changed-index", "sync -f failed in discovery but changed shards", rp(map[string]any{"diff": d}))
 				}
-			} else if forceErr == nil {
+			} else if fsx >= 1 && fsx <= 3 {
+				vfOracleFail("sync:valid-layout-rejected", "sync -f failed in discovery although the roots are valid and no names or sources collide", rp(nil))
+			} else if fsx == 0 || fsx == 5 {
+				// the forced run prints one Indexing line per discovered repository: compare with the independent discovery
+				var got, exp []string
+				for _, l := range force {
+					if l.kind == "indexing" {
+						got = append(got, l.name+" <- "+l.source)
+					}
+				}
+				for _, sp := range specs {
+					exp = append(exp, sp.name+" <- "+sp.source)
+				}
+				sort.Strings(got)
+				sort.Strings(exp)
+				if !lsEq(got, exp) {
+					vfOracleFail("sync:discovered-set-differs", "the repositories sync -f works on are not those found by an independent walk for .git / bare *.git", rp(map[string]any{"got": got, "want": exp}))
+				}
+			}
+			if !dup && !rootErr && forceErr == nil {
 				// exactly one up-to-date repository per discovered spec, nothing else
 				want := map[string]lsSpec{}
 				for _, s := range specs {
@@ -898,6 +917,13 @@ func (e *lsEnv) step(c lsCmd, which string, history []string) lsStepResult {
 				for n := range want {
 					if !seen0[n] {
 						vfOracleFail("sync:missing-repository-after-success", "a discovered repository has no shard after a successful sync -f", rp(map[string]any{"name": n}))
+					}
+				}
+				for f := range snap2 {
+					if strings.HasSuffix(f, ".zoekt.meta") {
+						if _, ok := snap2[strings.TrimSuffix(f, ".meta")]; !ok {
+							vfOracleFail("sync:orphan-sidecar-after-success", "a .meta sidecar is left without its shard", rp(map[string]any{"file": f}))
+						}
 					}
 				}
 				// a second forced run has nothing to do (converged)
@@ -1007,7 +1033,7 @@ func normalizeSourceOracle(s string) string {
 // ---------------------------------------------------------------- generator
 
 var lsRoots = []string{"/r1", "/r2", "/r1/team", "/r3.git"}
-var lsRels = []string{"a", "b", "team/a", "team/b", "a.git", "team/c.git", "b.git", "a/inner", "deep/x/y", "team/a/sub", "ü", "sp ace"}
+var lsRels = []string{"a", "b", "team/a", "team/b", "a.git", "team/c.git", "b.git", "a/inner", "deep/x/y", "kit.git", "team/a/sub", "ü", "sp ace"}
 
 func (e *lsEnv) randomRepoPath() string {
 	root := e.r.Pick([]string{"/r1", "/r1", "/r2", "/r2", "/r3.git"})
@@ -1290,6 +1316,25 @@ func lsRun(t *testing.T, which string, n int) {
 				os.MkdirAll(e.idx, 0o755)
 				os.WriteFile(filepath.Join(e.idx, "junk_v16.00000.zoekt"), []byte("not a shard"), 0o644)
 				history = append(history, "corrupt shard junk_v16.00000.zoekt")
+			}
+			if e.r.Chance(35) { // the lock file is not part of the state a preview may rely on: an index filled by other tools has none
+				if os.Remove(filepath.Join(e.idx, lockFileName)) == nil {
+					history = append(history, "lock file deleted")
+				}
+			}
+			if e.r.Chance(10) { // a metadata sidecar next to a shard (as written by metadata-only updates)
+				if inv0 := e.readInv(); len(inv0) > 0 {
+					sh := inv0[e.r.Intn(len(inv0))]
+					if !sh.bad {
+						p := filepath.Join(e.idx, sh.file)
+						if repos, _, err := index.ReadMetadataPathAlive(p); err == nil && len(repos) == 1 {
+							if tmp, final, err := index.JsonMarshalRepoMetaTemp(p, repos[0]); err == nil {
+								os.Rename(tmp, final)
+								history = append(history, "sidecar "+sh.file+".meta")
+							}
+						}
+					}
+				}
 			}
 			var c lsCmd
 			inv := e.readInv()
